@@ -82,6 +82,22 @@ Theorem C48_tx_deser_ser : forall allow_witness s t rest, bytes_ok s ->
 Proof. exact tx_canonical. Qed.
 Print Assumptions C48_tx_deser_ser.
 
+(* ---- block headers and blocks ---- *)
+Theorem C48_header_roundtrip : forall h rest, header_wf h -> unser_header (ser_header h ++ rest) = Ok h rest.
+Proof. exact header_roundtrip. Qed.
+Print Assumptions C48_header_roundtrip.
+
+Theorem C48_block_roundtrip : forall b rest, header_wf (b_header b) -> Z.of_nat (length (b_vtx b)) <= MAX_SIZE ->
+  Forall (fun t => tx_wf t /\ (tx_vin t <> [] \/ tx_vout t = [])) (b_vtx b) ->
+  unser_block true (ser_block true b ++ rest) = Ok b rest.
+Proof. exact block_roundtrip. Qed.
+Print Assumptions C48_block_roundtrip.
+
+Theorem C48_block_deser_ser : forall allow_witness s b rest, bytes_ok s ->
+  unser_block allow_witness s = Ok b rest -> s = ser_block allow_witness b ++ rest.
+Proof. exact block_canonical. Qed.
+Print Assumptions C48_block_deser_ser.
+
 (* ---- hex ---- *)
 Theorem C48_hex_roundtrip : forall b, bytes_ok b -> try_parse_hex (hex_str b) = Some b.
 Proof. exact hex_roundtrip. Qed.
@@ -112,6 +128,12 @@ Theorem C48_base64_roundtrip : forall input, bytes_ok input ->
   exists s, encode_base64 input = Some s /\ decode_base64 s = Some input.
 Proof. exact base64_roundtrip. Qed.
 Print Assumptions C48_base64_roundtrip.
+
+(* a string DecodeBase64 accepts is exactly EncodeBase64 of the result: wrong or missing padding,
+   characters outside the alphabet (white space included) and non-zero discarded bits are rejected *)
+Theorem C48_base64_canonical : forall s X, decode_base64 s = Some X -> encode_base64 X = Some s.
+Proof. exact base64_canonical. Qed.
+Print Assumptions C48_base64_canonical.
 
 Theorem C48_base32_roundtrip : forall input, bytes_ok input ->
   exists s, encode_base32 true input = Some s /\ decode_base32 s = Some input.
